@@ -653,7 +653,7 @@ func checkDumpOfSize(r *h.Run, deep, n int, mems func(size int) []int) {
 			q = "/debug?augment=0"
 		}
 		key := fmt.Sprintf("request GET %s on a dump of %d deep goroutines", q, n)
-		r.Check(func() *h.Viol {
+		v := r.Check(func() *h.Viol {
 			req := httptest.NewRequest("GET", q, nil)
 			rec := httptest.NewRecorder()
 			nBefore := runtime.NumGoroutine()
@@ -677,6 +677,11 @@ func checkDumpOfSize(r *h.Run, deep, n int, mems func(size int) []int) {
 		})
 		r.Record(key, true, "big")
 		r.Add("requests", 1)
+		if v != nil && n > 90 {
+			// already reported; on a broken tree the remaining multi-megabyte requests
+			// only cost time (seed C20-2C: pages pile up in a recycled buffer)
+			break
+		}
 	}
 }
 
